@@ -192,3 +192,35 @@ func SpecAllDigits(s string) bool {
 //@   ensures implies(base == 10 && bitSize == 8, 0 <= v && v <= 255)
 //@   ensures implies(len(s) == 0, err != nil && v == 0)
 //@   ensures OpaqueDec(s) >= 0
+
+// LemmaPrefixRuns: two strings that agree on their first n bytes have the same
+// backslash runs (hence the same escapedness) at every position up to n.
+//@ lemma LemmaPrefixRuns
+//@   tags C02 C19
+//@   requires 0 <= n && n <= len(a) && n <= len(b)
+//@   requires forall(0, n, func(i int) bool { return a[i] == b[i] })
+//@   decreases n
+//@   ensures forall(0, n+1, func(j int) bool { return SpecBsRun(a, j) == SpecBsRun(b, j) })
+
+func LemmaPrefixRuns(a, b string, n int) {
+	if n <= 0 {
+		return
+	}
+	LemmaPrefixRuns(a, b, n-1)
+}
+
+// LemmaBsRunNonNeg: a run length is never negative (and at most i).
+//@ lemma LemmaBsRunNonNeg
+//@   tags C02 C19
+//@   decreases i
+//@   ensures SpecBsRun(s, i) >= 0 && (i <= 0 || SpecBsRun(s, i) <= i)
+
+func LemmaBsRunNonNeg(s string, i int) {
+	if i <= 0 || i > len(s) {
+		return
+	}
+	if s[i-1] != '\\' {
+		return
+	}
+	LemmaBsRunNonNeg(s, i-1)
+}
